@@ -120,12 +120,18 @@ impl Tally {
         self.n += 1;
         for (p, q) in pristine.iter().zip(now) {
             match (&q.2, q.1) {
-                (Out::Panic, _) => { self.panics += 1; if self.first_bad.is_empty() { self.first_bad = format!("{}:{}:panic", what, q.0); self.ploc = last_panic_location(); } }
+                (Out::Panic, _) => { self.panics += 1; if self.ploc.is_empty() { self.ploc = last_panic_location(); } if self.first_bad.is_empty() { self.first_bad = format!("{}:{}:panic", what, q.0); } }
                 (Out::Err, true) => self.full_err += 1,
                 (Out::Err, false) => self.part_err += 1,
                 (Out::Val(v), true) => { if Out::Val(v.clone()) == p.2 { self.full_same += 1 } else { self.full_diff += 1; if self.first_bad.is_empty() { self.first_bad = format!("{}:{}:different-data", what, q.0); } } }
                 (Out::Val(v), false) => { if Out::Val(v.clone()) != p.2 { self.part_diff += 1 } }
             }
+        }
+    }
+    /// reads whose results are not judged (validation off on a damaged value): only panics count
+    fn add_panics_only(&mut self, what: &str, now: &[(&'static str, bool, Out)]) {
+        for q in now {
+            if matches!(q.2, Out::Panic) { self.panics += 1; if self.ploc.is_empty() { self.ploc = last_panic_location(); } if self.first_bad.is_empty() { self.first_bad = format!("{}:{}:panic", what, q.0); } }
         }
     }
     fn show(&self) -> String {
@@ -228,6 +234,8 @@ pub fn exec_op(ctx: &mut ArrCtx, verb: &str, m: &BTreeMap<String, String>) -> St
                 let now = reads(ctx, &c);
                 if l < isz { short_noterr += now.iter().filter(|r| !matches!(r.2, Out::Err)).count(); }
                 t.add(&format!("trunc@{}", l), &pristine, &now);
+                // the same reads with validation switched off: whatever they return, they do not panic
+                t.add_panics_only(&format!("trunc@{}/novalidate", l), &reads_opt(ctx, &c, false));
             }
             let _ = store.set(&key, pristine_val.into());
             return format!("{} short_noterr={}", t.show(), short_noterr);
@@ -253,7 +261,8 @@ pub fn exec_op(ctx: &mut ArrCtx, verb: &str, m: &BTreeMap<String, String>) -> St
             let base = if parts[0] == "end" { len - isz } else { 0 };
             // symbolic forms: off=len-K (K bytes before the end of the value), size=orig (the entry's stored size)
             let rd = |p: usize| { let b: [u8; 8] = pristine_val[p..p + 8].try_into().unwrap(); if parts[1] == "big" { u64::from_be_bytes(b) } else { u64::from_le_bytes(b) } };
-            let off: u64 = match m["off"].strip_prefix("len-") { Some(k) => (len as u64).saturating_sub(k.parse().unwrap()), None => m["off"].parse().unwrap() };
+            let off: u64 = if m["off"] == "orig" { rd(base + 16 * i) } else { match m["off"].strip_prefix("len-") { Some(k) => (len as u64).saturating_sub(k.parse().unwrap()), None => m["off"].parse().unwrap() } };
+            if m["off"] == "orig" && off == u64::MAX { let _ = store.set(&key, pristine_val.into()); return "skip".into(); }
             let size: u64 = if m["size"] == "orig" { rd(base + 16 * i + 8) } else { m["size"].parse().unwrap() };
             if m["size"] == "orig" && size == u64::MAX { let _ = store.set(&key, pristine_val.into()); return "skip".into(); }
             let mut v = pristine_val.clone();
@@ -265,6 +274,7 @@ pub fn exec_op(ctx: &mut ArrCtx, verb: &str, m: &BTreeMap<String, String>) -> St
             let now = reads(ctx, &c);
             let full_noterr = now.iter().filter(|r| r.1 && !matches!(r.2, Out::Err)).count();
             t.add("setindex", &pristine, &now);
+            t.add_panics_only("setindex/novalidate", &reads_opt(ctx, &c, false));
             let mut touch = String::new();
             if let Some(inner) = m.get("inner").map(|s| pnl(s)) {
                 // reads confined to inner chunk i: each must be an error or return what it returned before the corruption
@@ -304,6 +314,17 @@ fn family_cfg(rng: &mut Rng, fam: u64) -> (Cfg, String, String) {
         dtype: dt.clone(), fill: fill.clone(), shape: shape.clone(), grid: vec![(true, vec![chunk[0]]), (true, vec![chunk[1]])], regular_impl: true,
         keys: ("default".into(), "/".into()), codecs_json, chain_desc: desc, sharded, path: "/a".into(), eff_inner: eff };
     match fam {
+        5 => { // sharding nested in sharding, no index checksums: the outer index can shrink an inner SHARD below its own index
+            let shape = vec![4 * rng.range(1, 2), 2];
+            let loc = if rng.chance(1, 2) { "end" } else { "start" };
+            let loc2 = if rng.chance(1, 2) { "end" } else { "start" };
+            let idx = "[{\"name\":\"bytes\",\"configuration\":{\"endian\":\"little\"}}]";
+            let innermost = format!("{{\"name\":\"sharding_indexed\",\"configuration\":{{\"chunk_shape\":[1,2],\"codecs\":[{}],\"index_codecs\":{},\"index_location\":\"{}\"}}}}", bytes, idx, loc2);
+            let json = format!("[{{\"name\":\"sharding_indexed\",\"configuration\":{{\"chunk_shape\":[2,2],\"codecs\":[{}],\"index_codecs\":{},\"index_location\":\"{}\"}}}}]", innermost, idx, loc);
+            let cfg = Cfg { dtype: dt.clone(), fill: fill.clone(), shape, grid: vec![(true, vec![4]), (true, vec![2])], regular_impl: true,
+                keys: ("default".into(), "/".into()), codecs_json: json, chain_desc: format!("shard[2x2;{};le;shard[1x2;{};le;bytes]]", loc, loc2), sharded: true, path: "/a".into(), eff_inner: Some(vec![2, 2]) };
+            return (cfg, "none".into(), format!(" isz=32 nchunks=2 idx={}:little icrc=0 isum=0 nested=1", loc));
+        }
         0 => { // checksum outermost
             let mut cs = vec![bytes.clone()]; let mut d = vec!["bytes".to_string()];
             if !comp.0.is_empty() { cs.push(comp.0.into()); d.push(comp.1.into()); }
@@ -337,8 +358,8 @@ pub fn generate(tier: &str, seed: u64) -> Vec<String> {
     let ncfg = if thorough { 600 } else { 60 };
     let mut out = vec![];
     for k in 0..ncfg {
-        let fam = (k % 5) as u64;
-        let (cfg, prot, extra) = if fam < 4 { family_cfg(&mut rng, fam) } else { (gen_cfg(&mut rng, Some(k % 2 == 0)), "none".to_string(), String::new()) };
+        let fam = (k % 6) as u64;
+        let (cfg, prot, extra) = if fam < 4 || fam == 5 { family_cfg(&mut rng, fam) } else { (gen_cfg(&mut rng, Some(k % 2 == 0)), "none".to_string(), String::new()) };
         out.push(cfg.cfg_line("c15", "memory", true, false, &format!(" prot={}{}", prot, extra)));
         // fill the whole array with non-fill data, then a few more writes
         let total: u64 = cfg.shape.iter().product();
@@ -359,7 +380,7 @@ pub fn generate(tier: &str, seed: u64) -> Vec<String> {
             out.push(format!("c15 op multi c={} n={} seed={}", cs, if thorough { 60 } else { 20 }, rng.next() % 1000));
             out.push(format!("c15 op truncate_all c={}{}", cs, if extra.is_empty() { String::new() } else { extra.split(' ').filter(|s| s.starts_with("isz=")).map(|s| format!(" {}", s)).collect::<String>() }));
             out.push(format!("c15 op extend c={} seed={}", cs, rng.next() % 1000));
-            if fam == 2 || fam == 3 {
+            if fam == 2 || fam == 3 || fam == 5 {
                 let fields: BTreeMap<&str, &str> = extra.split(' ').filter_map(|kv| kv.split_once('=')).collect();
                 let n: u64 = fields["nchunks"].parse().unwrap();
                 let inner = cfg.eff_inner.clone().unwrap_or_default();
@@ -367,6 +388,12 @@ pub fn generate(tier: &str, seed: u64) -> Vec<String> {
                 for (off, size) in [(u64::MAX - 1, 5u64), (u64::MAX, 1), (1 << 40, 4), (0, u64::MAX - 1), (7, 1 << 33), (u64::MAX - 7, 8), (3, 0), (0, 1),
                                     (u64::MAX, 0), (0, u64::MAX), (u64::MAX, 8), (u64::MAX, u64::MAX - 1), (u64::MAX - 1, u64::MAX), (1, u64::MAX), (u64::MAX / 2 + 1, u64::MAX / 2 + 1)] {
                     out.push(format!("c15 op setindex c={} i={} off={} size={} nchunks={} idx={} icrc={} inner={}", cs, rng.below(n), off, size, n, fields["idx"], fields["icrc"], nl(&inner)));
+                }
+                // (nested sharding) the inner SHARD made shorter than its own index, empty, or one byte short / long
+                if extra.contains("nested=1") {
+                    for size in [4u64, 0, 1, 31, 33] {
+                        out.push(format!("c15 op setindex c={} i={} off=orig size={} nchunks={} idx={} icrc={} inner={}", cs, rng.below(n), size, n, fields["idx"], fields["icrc"], nl(&inner)));
+                    }
                 }
                 // an entry of the RIGHT size that starts inside the value and ends beyond it
                 for k in [1u64, 2, 5] {
